@@ -261,6 +261,23 @@ lenfam!(LV4, LS4, LX4, be::U32, "be::U32");
 lenfam!(LV5, LS5, LX5, le::U64, "le::U64");
 lenfam!(LV6, LS6, LX6, be::U64, "be::U64");
 
+pub type LX7 = flatty::FlexVec<VecB8, u8>;
+impl ZooMsg for LX7 {
+    const NAME: &'static str = "FlexVec<FlatVec<u8,u8>,u8>";
+    fn gen(g: &mut Gen) -> Val {
+        gen_flex::<VecB8>(g)
+    }
+    fn emplace_val<'b>(bytes: &'b mut [u8], v: &Val) -> Result<&'b mut Self, Error> {
+        emplace_flex::<VecB8, u8>(bytes, v)
+    }
+    fn read(&self) -> Val {
+        read_flex(self)
+    }
+    fn tweak(&mut self, g: &mut Gen) {
+        tweak_flex(self, g);
+    }
+}
+
 // smallest variant last
 #[flat(sized = false, default = true)]
 pub enum LastUnit {
